@@ -68,6 +68,8 @@ class C02(Prop):
 
     def shrink(self, c):
         c = {k: v for k, v in c.items() if k not in ("per", "any", "done0", "steps", "mod")}
+        if len(c.get("es") or []) > 200:
+            return      # the long run is replayed as it is (thousands of one-event-fewer candidates would cost hours)
         for fs in drop_one(c["fs"]):
             yield dict(c, fs=fs)
         if c["k"] == "seq":
